@@ -21,6 +21,7 @@ import (
 	"github.com/luraproject/lura/v2/proxy"
 	krakendgin "github.com/luraproject/lura/v2/router/gin"
 	"github.com/luraproject/lura/v2/router/mux"
+	"github.com/luraproject/lura/v2/transport/http/client"
 )
 
 const fixedDate = "Tue, 01 Oct 2024 10:00:00 GMT"
@@ -30,6 +31,7 @@ type script struct {
 	headers  [][2]string // appended to the header map in this order, keys as given
 	chunks   [][]byte    // written and flushed one by one (empty chunks dropped)
 	fixedLen bool        // announce Content-Length
+	members  int         // gzip members of the body (0: not gzip)
 }
 
 func (s *script) total() int {
@@ -66,12 +68,14 @@ type gwcfg struct {
 	coll   bool
 	oe     string // json | json-collection | string | no-op
 	cc     int
-	raw    bool // gateway->backend transport with DisableCompression (backend gzip reaches lura's parser)
-	byID   bool // the endpoint forwards the query parameter id: the backend picks its script per request
+	raw    bool   // gateway->backend transport with DisableCompression (backend gzip reaches lura's parser)
+	byID   bool   // the endpoint forwards the query parameter id: the backend picks its script per request
+	ef     string // backend extra_config of the http client: "" | details (return_error_details) | code (return_error_code)
+	fwdAE  bool   // the endpoint forwards Accept-Encoding and the client sends "gzip": Go's transport leaves a gzip body alone
 }
 
 func (g gwcfg) key() string {
-	return fmt.Sprintf("%s-%s-%v-%s-%d-%v-%v", g.router, g.be, g.coll, g.oe, g.cc, g.raw, g.byID)
+	return fmt.Sprintf("%s-%s-%v-%s-%d-%v-%v-%s-%v", g.router, g.be, g.coll, g.oe, g.cc, g.raw, g.byID, g.ef, g.fwdAE)
 }
 
 func newWorld() *world {
@@ -141,6 +145,15 @@ func (w *world) gateway(g gwcfg) string {
 	if g.byID {
 		ep.QueryString = []string{"id"}
 	}
+	if g.fwdAE {
+		ep.HeadersToPass = []string{"Accept-Encoding"}
+	}
+	switch g.ef {
+	case "details":
+		ep.Backend[0].ExtraConfig = config.ExtraConfig{client.Namespace: map[string]interface{}{"return_error_details": "be1"}}
+	case "code":
+		ep.Backend[0].ExtraConfig = config.ExtraConfig{client.Namespace: map[string]interface{}{"return_error_code": true}}
+	}
 	sc.Endpoints = []*config.EndpointConfig{ep}
 	if err := sc.Init(); err != nil {
 		panic(err)
@@ -178,8 +191,15 @@ type reply struct {
 	err    string // transport / read error seen by the client ("" = none)
 }
 
-func fetch(c *http.Client, url string) reply {
-	resp, err := c.Get(url)
+func fetch(c *http.Client, url string, acceptGzip bool) reply {
+	req, err := http.NewRequest("GET", url, nil)
+	if err != nil {
+		return reply{err: "request: " + err.Error()}
+	}
+	if acceptGzip {
+		req.Header.Set("Accept-Encoding", "gzip")
+	}
+	resp, err := c.Do(req)
 	if err != nil {
 		return reply{err: "get: " + err.Error()}
 	}
@@ -196,7 +216,7 @@ func fetch(c *http.Client, url string) reply {
 func (w *world) call(g gwcfg, s *script) reply {
 	k := w.gateway(g)
 	w.cur.Store(s)
-	return fetch(w.client, w.front.URL+"/e?g="+k)
+	return fetch(w.client, w.front.URL+"/e?g="+k, g.fwdAE)
 }
 
 // callID / directID: the backend plays the script registered under id (safe for concurrent use)
@@ -207,15 +227,15 @@ func (w *world) register(id string, s *script) {
 }
 
 func (w *world) callID(g gwcfg, id string) reply {
-	return fetch(w.client, w.front.URL+"/e?g="+w.gateway(g)+"&id="+id)
+	return fetch(w.client, w.front.URL+"/e?g="+w.gateway(g)+"&id="+id, g.fwdAE)
 }
 
-func (w *world) directID(id string) reply { return fetch(w.client, w.backend.URL+"/b?id="+id) }
+func (w *world) directID(id string) reply { return fetch(w.client, w.backend.URL+"/b?id="+id, false) }
 
 // direct asks the backend itself (reference: what the backend emits on the wire)
 func (w *world) direct(s *script) reply {
 	w.cur.Store(s)
-	return fetch(w.client, w.backend.URL+"/b")
+	return fetch(w.client, w.backend.URL+"/b", false)
 }
 
 // chunk token: short chunks literally, long ones by digest
